@@ -64,7 +64,7 @@ fn gen(rng: &mut Rng, idx: u64, tier: Tier) -> Case {
                 events.push((t, a, kind));
                 if j + 1 < k { t += rng.range(0, (d * s / 4).clamp(1, 3 * s)); }
             }
-            let sil = match rng.below(9) {
+            let sil = match rng.below(10) {
                 0 => (d - 1).max(0) * s,
                 1 => d * s - 1000,
                 2 => d * s - 1,
@@ -73,6 +73,7 @@ fn gen(rng: &mut Rng, idx: u64, tier: Tier) -> Case {
                 5 => d * s + 1000,
                 6 => (d + 1) * s,
                 7 => 3 * d * s,
+                8 if rng.chance(0.3) => rng.range(20, 70) * 86_400 * s, // weeks of silence
                 _ => rng.range(0, 2 * d * s),
             };
             t += sil;
